@@ -260,6 +260,9 @@ func observeDigits(x Num, n int) []string {
 	if ended && !emptyBeyond(x, len(ds)) {
 		ds = append(ds, 97) // iterating from a start at or beyond the end delivers nothing
 	}
+	if y, ok := x.(*v1.Number); ok && ended && y.NumDigits() != len(ds) {
+		ds = append(ds, 96) // NumDigits is the number of digits
+	}
 	t.ints(ds)
 	t.bool(ended)
 	return t
